@@ -475,11 +475,7 @@ func oracleC09(x *Exec, r *StepRec) {
 		qc, ok := post.Ctx[id]
 		origin := map[string]string{"context_origin": x.ctxOrigin(id)}
 		if !ok {
-			if r.Kind != "end" {
-				x.viol("C09", "illegal_transition", fmt.Sprintf("context %s removed by %s", id[:12], describeStep(r)), origin)
-				return
-			}
-			continue
+			continue // when a context's record is removed is C16's business, not a lifecycle transition
 		}
 		if pc.ServiceName != qc.ServiceName || !bytes.Equal(pc.Consumer, qc.Consumer) || pc.Input != qc.Input ||
 			pc.SuperMode != qc.SuperMode || pc.Repeated != qc.Repeated || pc.ModuleName != qc.ModuleName {
